@@ -97,7 +97,7 @@ def _mirror_limits(prog, uc):
         rm = Resolver(mo, prog, uc.module, uc)
         grids = []
         for n in ast.walk(mo):
-            if isinstance(n, ast.Call) and U(n.func) == "self" and n.args:
+            if isinstance(n, ast.Call) and U(n.func) in ("self", "self.__call__") and n.args:
                 t = rm.term(n.args[0], rm.stmt_of(n))
                 b = pmatch(t, "linspace(_a, _b, _n)")
                 if b is not None:
@@ -116,6 +116,23 @@ def _cdf_ordering(prog, uc, cf):
     hits = []
     for t in rz.return_terms():
         hits += find_all(t, f"_acc.cumsum()[{xp}.argsort().argsort()]")
+    if not hits:
+        # the inverse permutation built by scatter:  inv = zeros(n, dtype=int); inv[x.argsort()] = arange(n);  ...cumsum()[inv]
+        for t in rz.return_terms():
+            for _, b in find_all(t, "_acc.cumsum()[_inv]"):
+                inv = b["_inv"]
+                if not inv.isidentifier():
+                    continue
+                inits = [st for st in ast.walk(cf) if isinstance(st, ast.Assign) and U(st.targets[0]) == inv]
+                scat = [st for st in ast.walk(cf) if isinstance(st, ast.Assign) and isinstance(st.targets[0], ast.Subscript)
+                        and U(st.targets[0].value) == inv]
+                sizes = (f"{xp}.size", f"len({xp})", f"{xp}.shape[0]")
+                if len(inits) == 1 and len(scat) == 1 and isinstance(inits[0].value, ast.Call) \
+                        and U(inits[0].value.func) in ("zeros", "empty", "zeros_like", "empty_like") \
+                        and U(rz.term(scat[0].targets[0].slice, scat[0])) == f"{xp}.argsort()" \
+                        and isinstance(scat[0].value, ast.Call) and U(scat[0].value.func) == "arange" and len(scat[0].value.args) == 1 \
+                        and U(rz.term(scat[0].value.args[0], scat[0])) in sizes:
+                    hits.append((None, {"_acc": b["_acc"]}))
     acc = {b["_acc"] for _, b in hits}
     if not hits or len(acc) != 1:
         why.append("the returned value is not `<intervals>.cumsum()[x.argsort().argsort()]` (inverse permutation of the sorter)")
@@ -186,7 +203,7 @@ def run(prog, tier):
 
     def hook(e, node, env):
         f = U(node.func)
-        if f == "self":
+        if f in ("self", "self.__call__"):
             return TupleV([R.sym("P(a)"), R.sym("P(b)")])
         if f == "self.cdf":
             return TupleV([R.sym("F(a)"), R.sym("F(b)")])
@@ -204,7 +221,7 @@ def run(prog, tier):
     th = params[0]
     half = Fraction(1, 2)
     ok_v, why_v = True, []
-    probes = rz.calls(lambda f: f in ("self", "self.cdf"))
+    probes = rz.calls(lambda f: f in ("self", "self.__call__", "self.cdf"))
     for call, st_ in probes:
         t_ = rz.term(call.args[0], st_) if call.args else None
         bb = pmatch(t_, "array([_a, _b])") if t_ is not None else None
@@ -263,9 +280,9 @@ def run(prog, tier):
     lm = kc.methods.get("locate_mode")
     rl = Resolver(lm, prog, kc.module, kc)
     rets = rl.return_terms()
-    bb = pmatch(rets[0], "minimize_scalar(lambda z: -self(z), bounds=[_lo, _hi], method='bounded').x") if len(rets) == 1 else None
+    bb = pmatch(rets[0], "minimize_scalar(lambda z: -self.__call__(z), bounds=[_lo, _hi], method='bounded').x") if len(rets) == 1 else None
     if bb is None and len(rets) == 1:
-        bb = pmatch(rets[0], "minimize_scalar(lambda z: -self(z), bounds=(_lo, _hi), method='bounded').x")
+        bb = pmatch(rets[0], "minimize_scalar(lambda z: -self.__call__(z), bounds=(_lo, _hi), method='bounded').x")
     ok = bb is not None and "self.sample" in bb["_lo"] and "self.sample" in bb["_hi"]
     obs.append(struct_ob("mode-is-argmax", qual(kc, lm), ok,
                          f"the mode must be the bounded minimiser of -density over an interval taken from the sample; returned term: "
@@ -302,7 +319,9 @@ def run(prog, tier):
     k_ab, seen_k = abstract(node_t, [("linspace(_a, _b, _c)", "k"), ("arange(_a, _b)", "k")])
     kdefs = seen_k.get("k", set())
     kdef = next(iter(kdefs)) if len(kdefs) == 1 else None
-    ok_k = kdef is not None and pmatch(ast.parse(kdef, mode="eval").body, "linspace(1, self.n_nodes, self.n_nodes)") is not None
+    ok_k = kdef is not None and any(pmatch(ast.parse(kdef, mode="eval").body, pt) is not None for pt in
+                                    ("linspace(1, self.n_nodes, self.n_nodes)", "arange(1, self.n_nodes + 1)", "arange(1, 1 + self.n_nodes)",
+                                     "arange(1.0, self.n_nodes + 1)"))
     ex.scalar_names = set()
     tval = guard(lambda: ex.eval(k_ab, {"k": R.sym("k")}))
     want_t = anf.cos_(anf.PI * (2 * R.sym("k") - 1) / (2 * n))
